@@ -13,6 +13,7 @@ inductive InKind
   | testRequest (id : String)          -- 35=1, 112
   | app                                -- an application message
   | logout                             -- 35=5
+  | gap                                -- an application message AHEAD of the expected number (state continuous: ResendRequest)
   deriving DecidableEq, Repr, Inhabited
 
 inductive Ev
@@ -29,6 +30,7 @@ def trFrame : Frame := { msgType := "1", seq := 0, sender := "", target := "", t
 def logoutFrame (silent : Bool) : Frame :=
   { msgType := "5", seq := 0, sender := "", target := "", text := if silent then none else some "ignored" }
 def appFrame : Frame := { msgType := "D", seq := 0, sender := "", target := "" }
+def resendFrame (_b : Nat) : Frame := { msgType := "2", seq := 0, sender := "", target := "" }   -- BeginSeqNo (7) is not carried by `Frame`
 
 /-- first half of `heartbeat_service`: `if ((now - _last_sent).secs() >= hb_interval) send(generate_heartbeat(""))` -/
 def tickHeartbeat (s : Sess) (now : Nat) : Sess × List Frame :=
@@ -70,6 +72,13 @@ def recv (s : Sess) (now : Nat) (k : InKind) : Sess × List Frame :=
        [(s0.send now (hbFrame (if id.isEmpty then none else some id))).2])
     | .app => (s0.received, [])
     | .logout => (s0.received.stop, [])                                          -- handle_logout; … stop()
+    | .gap =>
+      -- sequence_check: seqnum > expected; in `continuous` a ResendRequest (BeginSeqNo = expected) goes out and the state becomes
+      -- resend_request_sent, the message is not delivered; process() counts it all the same.  In any other established state the
+      -- check throws InvalidMsgSequence (force_logoff): the session is stopped without a Logout (state is not logon_received)
+      if s0.state == .continuous then
+        ({ (s0.send now (resendFrame s0.nextRecv)).1 with state := .resendRequestSent }.received, [(s0.send now (resendFrame s0.nextRecv)).2])
+      else (s0.stop, [])
 
 /-- the application sends a message -/
 def appSend (s : Sess) (now : Nat) : Sess × List Frame :=
